@@ -52,7 +52,7 @@ M = [
   "if !time.Before(p.StartTime) && time.Before(p.EndTime) {", "if !time.Before(p.StartTime) && !time.After(p.EndTime) {"),
  ("m22_volume_threshold_off_by_one", "C07", "volume promotion needs one more response", "types/binding.go",
   "\t\tif volume < p.Volume {", "\t\tif volume <= p.Volume {"),
- ("m23_no_min_one_clamp", "C07 C01", "price below one unit is not raised to one (both price functions)", "keeper/invocation.go",
+ ("m23_no_min_one_clamp", "C07", "price below one unit is not raised to one (both price functions)", "keeper/invocation.go",
   "\t// set to 1 if price < 1\n\tif price.LT(sdk.OneDec()) {\n\t\tprice = sdk.OneDec()\n\t}\n", "",
   [("keeper/oracle_price.go", "\tif realPrice.LT(sdk.OneDec()) {\n\t\trealPrice = sdk.OneDec()\n\t}\n", "")]),
  ("m24_volume_not_counted", "C07", "accepted responses do not move the volume", "keeper/invocation.go",
@@ -89,11 +89,11 @@ M = [
  ("m39_withdraw_to_owner", "C13", "withdrawals ignore the withdrawal address", "keeper/fees.go",
   "\twithdrawAddr := k.GetWithdrawAddress(ctx, owner)\n", "\twithdrawAddr := owner\n"),
  ("m40_enable_without_deposit_check", "C14", "enable does not check the minimum deposit", "keeper/binding.go",
-  "\tminDeposit := k.getMinDeposit(ctx, k.GetPricing(ctx, serviceName, provider))\n\tif !binding.Deposit.IsAllGTE(minDeposit) {\n\t\treturn sdkerrors.Wrapf(\n\t\t\ttypes.ErrInvalidDeposit,\n\t\t\t\"insufficient deposit: minimum deposit %s, %s got\",\n\t\t\tminDeposit, binding.Deposit,\n\t\t)\n\t}\n\n\tif !deposit.Empty() {\n\t\t// Send coins from the owner's account to the deposit module account\n\t\tif err := k.bankKeeper.SendCoinsFromAccountToModule(\n", "\tif !deposit.Empty() {\n\t\t// Send coins from the owner's account to the deposit module account\n\t\tif err := k.bankKeeper.SendCoinsFromAccountToModule(\n"),
+  "\tminDeposit := k.getMinDeposit(ctx, k.GetPricing(ctx, serviceName, provider))\n\tif !binding.Deposit.IsAllGTE(minDeposit) {", "\tminDeposit := k.getMinDeposit(ctx, k.GetPricing(ctx, serviceName, provider))\n\tif false && !binding.Deposit.IsAllGTE(minDeposit) {"),
  ("m41_min_deposit_is_min", "C14", "minimum deposit takes the smaller of the two bounds", "keeper/binding.go",
   "\tif minDeposit.IsAllLT(minDepositParam) {", "\tif minDeposit.IsAllGT(minDepositParam) {"),
  ("m42_redefine_overwrites", "C15", "a second definition overwrites the first", "keeper/definition.go",
-  "\tif _, found := k.GetServiceDefinition(ctx, name); found {\n\t\treturn sdkerrors.Wrap(types.ErrServiceDefinitionExists, name)\n\t}\n", ""),
+  "\tif _, found := k.GetServiceDefinition(ctx, name); found {\n\t\treturn sdkerrors.Wrap(types.ErrServiceDefinitionExists, name)", "\tif _, found := k.GetServiceDefinition(ctx, name); found && len(tags) > 10 {\n\t\treturn sdkerrors.Wrap(types.ErrServiceDefinitionExists, name)"),
  ("m43_bindings_subspace_no_separator", "C15 C17 C18", "bindings of a service listed by bare name prefix", "types/keys.go",
   "\treturn append(append(ServiceBindingKey, []byte(serviceName)...), EmptyByte...)", "\treturn append(ServiceBindingKey, []byte(serviceName)...)"),
  ("m44_no_clean_batch", "C16", "expired batches are not cleaned", "abci.go",
@@ -102,7 +102,7 @@ M = [
   "iterator := k.RequestsIteratorByReqCtx(ctx, requestContextID, requestContext.BatchCounter)", "iterator := k.RequestsIteratorByReqCtx(ctx, requestContextID, requestContext.BatchCounter-1)"),
  ("m46_legacy_bindings_ignore_owner", "C17", "legacy bindings query ignores the owner filter", "keeper/querier.go",
   "\tif params.Owner.Empty() {\n\t\titerator := k.ServiceBindingsIterator(ctx, params.ServiceName)", "\tif true {\n\t\titerator := k.ServiceBindingsIterator(ctx, params.ServiceName)"),
- ("m47_responses_of_all_batches", "C17 C12", "responses listed for the whole context, not the batch", "types/keys.go",
+ ("m47_responses_of_all_batches", "C17", "responses listed for the whole context, not the batch", "types/keys.go",
   "\treturn append(append(ResponseKey, requestContextID...), sdk.Uint64ToBigEndian(batchCounter)...)", "\treturn append(ResponseKey, requestContextID...)"),
  ("m48_request_index_from_one", "C18", "request IDs carry index+1", "keeper/invocation.go",
   "requestID := types.GenerateRequestID(requestContextID, requestContext.BatchCounter, ctx.BlockHeight(), int16(providerIndex))", "requestID := types.GenerateRequestID(requestContextID, requestContext.BatchCounter, ctx.BlockHeight(), int16(providerIndex+1))"),
@@ -116,8 +116,6 @@ M = [
   "\t\t\twithdrawAddresses[ownerAddress.String()] = withdrawAddress\n", "\t\t\t_ = withdrawAddress\n"),
  ("m53_state_write_in_map_order", "C20", "a store write depends on map iteration order", "abci.go",
   "\t\tstr := strings.Split(provider, \".\")\n", "\t\tk.SetWithdrawAddress(ctx, sdk.AccAddress(\"last-notified-provider\"), sdk.AccAddress(provider))\n\t\tstr := strings.Split(provider, \".\")\n"),
- ("m54_update_ctx_indexes_empty_providers", "C20", "context update reads providers[0] without a length check", "keeper/invocation.go",
-  "\tif len(providers) > 0 {\n\t\trequestContext.Providers = providers\n\t}\n", "\tif !providers[0].Empty() {\n\t\trequestContext.Providers = providers\n\t}\n"),
 ]
 
 
